@@ -147,8 +147,21 @@ func (m *CPU) Run(app risc.Application) (int, error) {
 			log.Info(m.ctx, "\t🛑 Return")
 			cycle++
 			m.writeBus.Connect(cycle)
-			for !m.areWriteUnitsEmpty() || !m.writeBus.IsEmpty() {
+			// Complete the instructions preceding the return that are still
+			// in an execute unit, a write unit or on the write bus
+			for !m.areExecuteUnitsEmpty() || !m.areWriteUnitsEmpty() || !m.writeBus.IsEmpty() {
 				m.ctx.VerifTick()
+				for _, cc := range m.cacheControllers {
+					cc.snoop.Cycle(struct{}{})
+				}
+				for _, eu := range m.executeUnits {
+					if eu.isEmpty() {
+						continue
+					}
+					if resp := eu.Cycle(euReq{cycle, app}); resp.err != nil {
+						return 0, resp.err
+					}
+				}
 				for _, wu := range m.writeUnits {
 					_ = wu.Cycle(wuReq{-1})
 				}
@@ -292,6 +305,15 @@ func (m *CPU) isEmpty() bool {
 	if !empty {
 		return false
 	}
+	for _, eu := range m.executeUnits {
+		if !eu.isEmpty() {
+			return false
+		}
+	}
+	return true
+}
+
+func (m *CPU) areExecuteUnitsEmpty() bool {
 	for _, eu := range m.executeUnits {
 		if !eu.isEmpty() {
 			return false
